@@ -20,6 +20,7 @@ import (
 	"hash/fnv"
 	"os"
 	"path/filepath"
+	"runtime"
 	"runtime/debug"
 	"sort"
 	"strconv"
@@ -416,6 +417,11 @@ func vfBubble(t *testing.T, f func()) (panicMsg string) {
 	defer func() {
 		if r := recover(); r != nil {
 			panicMsg = fmt.Sprintf("%v", r)
+			if strings.Contains(panicMsg, "deadlock") {
+				buf := make([]byte, 1<<20)
+				k := runtime.Stack(buf, true)
+				panicMsg += "\n" + vfBubbleStacks(string(buf[:k]))
+			}
 		}
 	}()
 	var inner string
@@ -428,4 +434,24 @@ func vfBubble(t *testing.T, f func()) (panicMsg string) {
 		f()
 	})
 	return inner
+}
+
+// vfBubbleStacks keeps the goroutines of a bubble that are still blocked (first lines of each), so a report
+// names the library code that did not terminate.
+func vfBubbleStacks(dump string) string {
+	var out []string
+	for _, g := range strings.Split(dump, "\n\n") {
+		if !strings.Contains(g, "synctest bubble") || strings.Contains(g, "vfBubble") {
+			continue
+		}
+		lines := strings.Split(g, "\n")
+		if len(lines) > 9 {
+			lines = lines[:9]
+		}
+		out = append(out, strings.Join(lines, "\n"))
+		if len(out) >= 6 {
+			break
+		}
+	}
+	return strings.Join(out, "\n--\n")
 }
